@@ -2943,6 +2943,7 @@ class Qube(object):
 
         # Handle a simple right-hand value...
         if self._rank_ == 0 and isinstance(arg, (numbers.Real, np.ndarray)):
+            self._require_inplace_shape(np.shape(arg), '+=')
             self._values_ += arg
             self._new_values_()
             return self
@@ -2972,6 +2973,7 @@ class Qube(object):
         if self.is_int() and not arg.is_int():
             raise TypeError('"+=" operation returns non-integer result')
 
+        self._require_inplace_shape(arg._shape_, '+=')
         new_derivs = self._add_derivs(self,arg) # if this raises exception, stop
         self._values_ += arg._values_           # on exception, no harm done
         self._mask_ = Qube.or_(self._mask_, arg._mask_)
@@ -3063,6 +3065,7 @@ class Qube(object):
 
         # Handle a simple right-hand value...
         if self._rank_ == 0 and isinstance(arg, (numbers.Real, np.ndarray)):
+            self._require_inplace_shape(np.shape(arg), '-=')
             self._values_ -= arg
             self._new_values_()
             return self
@@ -3092,6 +3095,7 @@ class Qube(object):
         if self.is_int() and not arg.is_int():
             raise TypeError('"-=" operation returns non-integer result')
 
+        self._require_inplace_shape(arg._shape_, '-=')
         new_derivs = self._sub_derivs(self,arg) # if this raises exception, stop
         self._values_ -= arg._values_           # on exception, no harm done
         self._mask_ = Qube.or_(self._mask_, arg._mask_)
@@ -3223,6 +3227,7 @@ class Qube(object):
                 raise TypeError('Integer %s "*=" operation returns non-integer '
                                 'result' % type(self).__name__)
 
+            self._require_inplace_shape(arg._shape_, '*=')
             new_derivs = self._mul_derivs(arg)  # if this raises exception, stop
             self._values_ *= arg_values         # on exception, object unchanged
             self._mask_ = Qube.or_(self._mask_, arg._mask_)
@@ -3572,6 +3577,7 @@ class Qube(object):
             if self._rank_:
                 div_values = np.reshape(div_values, np.shape(div_values) +
                                                     self._rank_ * (1,))
+            self._require_inplace_shape(arg._shape_, '//=')
             self._values_ //= div_values
             self._mask_ = self._mask_ | divisor._mask_
             self._units_ = Units.div_units(self._units_, arg._units_)
@@ -3704,6 +3710,7 @@ class Qube(object):
             if self._rank_:
                 div_values = np.reshape(div_values, np.shape(div_values) +
                                                     self._rank_ * (1,))
+            self._require_inplace_shape(arg._shape_, '%=')
             self._values_ %= div_values
             self._mask_ = self._mask_ | divisor._mask_
             self._units_ = Units.div_units(self._units_, arg._units_)
@@ -4468,6 +4475,20 @@ class Qube(object):
 
         raise TypeError('unsupported operand type for %s: %s'
                         % (opstr, type(obj2).__name__))
+
+    #===========================================================================
+    def _require_inplace_shape(self, arg_shape, op):
+        """Raise a ValueError if an operand of the given shape cannot be
+        broadcasted into this shapeless object.
+
+        NumPy rejects such an operand for array values; a Python scalar value
+        would silently be replaced by an array of the operand's shape.
+        """
+
+        if arg_shape and not self._shape_:
+            raise ValueError('incompatible shapes for %s: %s, %s'
+                             % (self._opstr(op), self._shape_,
+                                tuple(arg_shape)))
 
     #===========================================================================
     @staticmethod
